@@ -92,17 +92,50 @@ Qed.
 
 (* ---------- statements *)
 
-(* what a statement must satisfy beyond its types: VIEW corners validated by view_'s range checks,
-   PUT sprites rectangular, replayed request lists safe *)
+(* every statement kind is unconditional (PSET, LINE, B, BF, VIEW with its regenerated range checks, PUT, the
+   pixel lists of CIRCLE / DRAW) except the generic replay of an arbitrary request list (used for tiled PAINT),
+   which must consist of safe requests *)
 Definition stmt_ok (st : gstate) (s : stmt) : Prop :=
   match s with
-  | SView x0 y0 x1 y1 _ _ _ =>
-      0 <= x0 < vp_maxw (g_vp st) /\ 0 <= x1 < vp_maxw (g_vp st) /\
-      0 <= y0 < vp_maxh (g_vp st) /\ 0 <= y1 < vp_maxh (g_vp st)
-  | SPut _ _ sprite _ => rect_sprite sprite
   | SReqs _ rqs _ => Forall (req_ok (g_vp st)) rqs
   | _ => True
   end.
+
+Lemma rectify_rect : forall s, rect_sprite (rectify s).
+Proof.
+  intros s. unfold rect_sprite, rectify. destruct s as [|r0 t]; [constructor|].
+  set (w := Z.to_nat (sprite_width (r0 :: t))).
+  assert (Hw : w = length r0) by (subst w; unfold sprite_width, zlen; lia).
+  assert (Hrow : forall r, length (firstn w (r ++ repeat 0 w)) = w).
+  { intros r. rewrite firstn_length, app_length, repeat_length. lia. }
+  assert (Hsw : sprite_width (map (fun r => firstn w (r ++ repeat 0 w)) (r0 :: t)) = Z.of_nat w).
+  { cbn [map sprite_width]. unfold zlen. rewrite Hrow. reflexivity. }
+  rewrite Hsw. apply Forall_forall. intros r Hin. apply in_map_iff in Hin. destruct Hin as [r' [E _]]. subst r.
+  unfold zlen. rewrite Hrow. reflexivity.
+Qed.
+
+Lemma rectify_id : forall s, rect_sprite s -> rectify s = s.
+Proof.
+  intros s Hs. unfold rectify. rewrite <- (map_id s) at 2. apply map_ext_in. intros r Hr.
+  unfold rect_sprite in Hs. rewrite Forall_forall in Hs. specialize (Hs r Hr).
+  rewrite firstn_app. replace (Z.to_nat (sprite_width s) - length r)%nat with 0%nat by (unfold zlen in Hs; lia).
+  cbn [firstn]. rewrite app_nil_r. apply firstn_all2. unfold zlen in Hs. lia.
+Qed.
+
+Lemma view_checks_ok : forall w h x0 y0 x1 y1,
+  raster_view_checks w h x0 y0 x1 y1 = Ok tt ->
+  0 <= x0 < w /\ 0 <= x1 < w /\ 0 <= y0 < h /\ 0 <= y1 < h.
+Proof.
+  intros w h x0 y0 x1 y1 H. unfold raster_view_checks in H.
+  repeat match type of H with (if ?c then _ else _) = _ => destruct c eqn:?; try discriminate end. lia.
+Qed.
+
+Lemma view_checks_res : forall w h x0 y0 x1 y1,
+  raster_view_checks w h x0 y0 x1 y1 = Ok tt \/ raster_view_checks w h x0 y0 x1 y1 = Err 5.
+Proof.
+  intros. unfold raster_view_checks.
+  repeat match goal with |- context [if ?c then _ else _] => destruct c end; auto.
+Qed.
 
 Definition good_state (st : gstate) : Prop :=
   wf_vp (g_vp st) /\ (g_apage st < length (g_pages st))%nat /\ Forall (same_dims (g_vp st)) (g_pages st).
@@ -130,7 +163,7 @@ Proof.
   { intros r Hr. split; [reflexivity|]. split; [exact Hwf|]. split; [exact Hr|]. split; [exact Hwf|].
     split; [reflexivity|]. split; [reflexivity|]. split; reflexivity. }
   destruct s as [x y a | x0 y0 x1 y1 a p | x0 y0 x1 y1 a p | x0 y0 x1 y1 a | x0 y0 x1 y1 ab fill border
-                 | x y sprite op | g rq e]; cbn [stmt_reqs draw_vp] in *.
+                 | x y sprite op | g pts e | g rq e]; cbn [stmt_reqs draw_vp] in *.
   - injection H as E1 E2 E3. subst. apply Hsame.
     apply pixel_reqs_ok; [exact Hwf | apply gen_pset_safe].
   - destruct (gen_line_safe (g_vp st) x0 y0 x1 y1 a p) as [l [El Fl]]. rewrite El in H.
@@ -141,7 +174,9 @@ Proof.
     apply Hsame. apply pixel_reqs_ok; assumption.
   - injection H as E1 E2 E3. subst. apply Hsame. apply gen_boxfill_safe; exact Hwf.
   - assert (Hu : wf_vp (vp_unset (g_vp st))) by (apply vp_unset_wf; lia).
-    cbn [stmt_ok] in Hok.
+    destruct (raster_view_checks (vp_maxw (g_vp st)) (vp_maxh (g_vp st)) x0 y0 x1 y1) as [[]| | |] eqn:Echk;
+      cbn [bind] in H; try discriminate.
+    pose proof (view_checks_ok _ _ _ _ _ _ Echk) as Hrange.
     assert (Hset : wf_vp (vp_set (g_vp st) x0 y0 x1 y1 ab)) by (apply vp_set_wf; lia).
     assert (Hfill : Forall (req_ok (vp_unset (g_vp st)))
                       match fill with Some f => gen_boxfill (vp_unset (g_vp st)) x0 y0 x1 y1 f | None => [] end).
@@ -156,14 +191,17 @@ Proof.
       split; [reflexivity|]. split; [exact Hu|].
       split; [rewrite app_nil_r; exact Hfill|].
       split; [exact Hset|]. split; [reflexivity|]. split; [reflexivity|]. split; reflexivity.
-  - destruct (put_reqs (g_vp st) (g_bpp st) (the_page st) x y sprite op) as [r| | |] eqn:Ep; cbn [bind] in H;
+  - destruct (put_reqs (g_vp st) (g_bpp st) (the_page st) x y (rectify sprite) op) as [r| | |] eqn:Ep; cbn [bind] in H;
       try discriminate.
     injection H as E1 E2 E3. subst. apply Hsame.
-    eapply put_reqs_ok; [exact Hwf | | exact Hok | exact Ep].
+    eapply put_reqs_ok; [exact Hwf | | apply rectify_rect | exact Ep].
     unfold the_page. rewrite Forall_forall in Hdims.
     destruct (nth_in_or_default (g_apage st) (g_pages st) []) as [Hin | Hd].
     + apply (Hdims _ Hin).
     + rewrite Hd. constructor.
+  - injection H as E1 E2 E3. subst. apply Hsame. apply pixel_reqs_ok; [exact Hwf|].
+    apply Forall_forall. intros rq Hin. apply in_map_iff in Hin. destruct Hin as [[[py px] pa] [E _]].
+    subst rq. exists py, px, pa. reflexivity.
   - injection H as E1 E2 E3. subst. apply Hsame. exact Hok.
 Qed.
 
@@ -195,15 +233,15 @@ Theorem exec_text_mode : forall st s, g_text st = true -> exec st s = (Err 5, st
 Proof.
   intros st s Ht. unfold exec. rewrite Ht.
   destruct s as [x y a | x0 y0 x1 y1 a p | x0 y0 x1 y1 a p | x0 y0 x1 y1 a | x0 y0 x1 y1 ab fill border
-                 | x y sprite op | g rq e]; cbn [stmt_guard]; try reflexivity.
-  destruct (g =? 0); [reflexivity|]. destruct (g =? 1); reflexivity.
+                 | x y sprite op | g pts e | g rq e]; cbn [stmt_guard]; try reflexivity;
+    (destruct (g =? 0); [reflexivity|]; destruct (g =? 1); reflexivity).
 Qed.
 
 Lemma guard_graphics : forall s, stmt_guard s false = Ok tt.
 Proof.
   intros s. destruct s as [x y a | x0 y0 x1 y1 a p | x0 y0 x1 y1 a p | x0 y0 x1 y1 a | x0 y0 x1 y1 ab fill border
-                 | x y sprite op | g rq e]; cbn [stmt_guard]; try reflexivity.
-  destruct (g =? 0); [reflexivity|]. destruct (g =? 1); reflexivity.
+                 | x y sprite op | g pts e | g rq e]; cbn [stmt_guard]; try reflexivity;
+    (destruct (g =? 0); [reflexivity|]; destruct (g =? 1); reflexivity).
 Qed.
 
 Lemma same_dims_eqdims : forall vp vp' m,
@@ -231,7 +269,7 @@ Proof.
     destruct (funnel_run vpd rqs (the_page st) Hwd Hpage Hrq) as [m' [Hrun [Hd' Hch]]].
     rewrite Hrun.
     eexists _, _. split; [reflexivity|].
-    split; [destruct s; try (left; reflexivity); destruct (err =? 0); [left; reflexivity | right; eauto]|].
+    split; [destruct (stmt_err s =? 0); [left; reflexivity | right; eauto]|].
     assert (Hpg : forall t, the_page (GS t (g_bpp st) (set_page (g_pages st) (g_apage st) m') (g_apage st) vpa) = m').
     { intros t. unfold the_page. cbn [g_pages g_apage]. apply nth_error_nth.
       rewrite nth_error_set_page, Nat.eqb_refl.
@@ -253,18 +291,22 @@ Proof.
     split; [exact Hgood | split; [reflexivity | congruence]].
   - (* Host: impossible *)
     exfalso. destruct s as [x y a | x0 y0 x1 y1 a p | x0 y0 x1 y1 a p | x0 y0 x1 y1 a | x0 y0 x1 y1 ab fill border
-                 | x y sprite op | g rq e]; cbn [stmt_reqs] in Er; try discriminate.
+                 | x y sprite op | g pts e | g rq e]; cbn [stmt_reqs] in Er; try discriminate.
     + destruct (gen_line_safe (g_vp st) x0 y0 x1 y1 a p) as [l [El _]]. rewrite El in Er. discriminate.
     + destruct (gen_box_safe (g_vp st) x0 y0 x1 y1 a p) as [l [El _]]. rewrite El in Er. discriminate.
-    + destruct border as [b|]; [|discriminate].
+    + destruct (view_checks_res (vp_maxw (g_vp st)) (vp_maxh (g_vp st)) x0 y0 x1 y1) as [Ec|Ec]; rewrite Ec in Er;
+        cbn [bind] in Er; [|discriminate].
+      destruct border as [b|]; [|discriminate].
       destruct (gen_box_safe (vp_unset (g_vp st)) (x0 - 1) (y0 - 1) (x1 + 1) (y1 + 1) b 65535) as [l [El _]].
       rewrite El in Er. discriminate.
     + unfold put_reqs in Er. destruct (negb _); [discriminate|]. destruct (negb _); discriminate.
   - exfalso. destruct s as [x y a | x0 y0 x1 y1 a p | x0 y0 x1 y1 a p | x0 y0 x1 y1 a | x0 y0 x1 y1 ab fill border
-                 | x y sprite op | g rq e]; cbn [stmt_reqs] in Er; try discriminate.
+                 | x y sprite op | g pts e | g rq e]; cbn [stmt_reqs] in Er; try discriminate.
     + destruct (gen_line_safe (g_vp st) x0 y0 x1 y1 a p) as [l [El _]]. rewrite El in Er. discriminate.
     + destruct (gen_box_safe (g_vp st) x0 y0 x1 y1 a p) as [l [El _]]. rewrite El in Er. discriminate.
-    + destruct border as [b|]; [|discriminate].
+    + destruct (view_checks_res (vp_maxw (g_vp st)) (vp_maxh (g_vp st)) x0 y0 x1 y1) as [Ec|Ec]; rewrite Ec in Er;
+        cbn [bind] in Er; [|discriminate].
+      destruct border as [b|]; [|discriminate].
       destruct (gen_box_safe (vp_unset (g_vp st)) (x0 - 1) (y0 - 1) (x1 + 1) (y1 + 1) b 65535) as [l [El _]].
       rewrite El in Er. discriminate.
     + unfold put_reqs in Er. destruct (negb _); [discriminate|]. destruct (negb _); discriminate.
